@@ -548,6 +548,36 @@ def schemaOverflows (sc : List DeclSchema) : Bool :=
     sizeBig ds.sizes.declSize || sizeBig ds.sizes.parentSize || sizeBig ds.sizes.payloadSize || sizeBig ds.sizes.total ||
     ds.fields.any fun fs => sizeBig fs.fieldSize || (match fs.padded with | some n => !usizeOk n | none => false)
 
+/-- `Size::add` of two static sizes leaves `[0, 2^64)` -/
+def addOverflows : Size → Size → Bool
+  | .static x, .static y => !usizeOk (x + y)
+  | _, _ => false
+
+/-- the running `decl_size` of `annotate_decl` overflows at some field, even when a later dynamic or unknown
+    field absorbs the sum (so that no FINAL static quantity is out of range) -/
+def sumDeclOverflows : List Field → List FieldSizes → Size → Bool
+  | f :: fs, s :: ss, d =>
+    match f.desc with
+    | .payload _ | .body => sumDeclOverflows fs ss d
+    | _ =>
+      let x := (match s.padded with | some pad => Size.static pad | none => s.fieldSize)
+      addOverflows d x || sumDeclOverflows fs ss (d + x)
+  | _, _, _ => false
+
+def schemaSumOverflows (f : File) (sc : List DeclSchema) : Bool :=
+  (f.decls.zip sc).any fun (d, ds) =>
+    (match d.desc with
+     | .packet .. | .struct .. | .group .. => sumDeclOverflows d.fields ds.fields (.static 0)
+     | _ => false) ||
+    addOverflows ds.sizes.declSize ds.sizes.parentSize
+
+/-- `static_size += …` in `check_decl_sizes` adds up the static fields of a declaration (dynamic ones count 0) on `usize` -/
+def declSizesOverflow (f : File) (sc : List DeclSchema) : Bool :=
+  (f.decls.zip sc).any fun (_, ds) =>
+    (ds.fields.foldl (fun (st : Nat × Bool) fs =>
+      let n := st.1 + (fs.fieldSize.static?.getD 0)
+      (n, st.2 || !usizeOk n)) (0, false)).2
+
 def checkFieldOffsets (f : File) (sc : List DeclSchema) : Res Unit :=
   let r := (f.decls.zip sc).foldl (fun (acc : List Diag × Option APanic) (d, ds) =>
     let (a, _, p) := (d.fields.zip ds.fields).foldl (fun (st : List Diag × Nat × Option APanic) (fl, fs) =>
@@ -617,11 +647,13 @@ def analyze (f : File) : Res File :=
               else match Schema.build f with
                 | none => .panic .schemaLookup
                 | some sc =>
-                  if schemaOverflows sc then .panic .schemaOverflow else
+                  if schemaOverflows sc || schemaSumOverflows f sc then .panic .schemaOverflow else
                   match checkFieldOffsets f sc with
                   | .diags ds => .diags ds
                   | .panic p => .panic p
-                  | .ok _ => firstErr (checkDeclSizes f sc) fun _ => .ok f
+                  | .ok _ =>
+                    if declSizesOverflow f sc then .panic .offsetOverflow
+                    else firstErr (checkDeclSizes f sc) fun _ => .ok f
 
 end Analyzer
 end Pdlv
